@@ -196,6 +196,20 @@ type fmtCtx struct {
 	opaque bool
 }
 
+// trySmall renders a symbolic integer or bool exactly when it has only a
+// handful of feasible values (list indices, small counters): the path forks
+// over them. Otherwise the rendering stays opaque.
+func (c *fmtCtx) trySmall(v sym) (value, bool) {
+	if kindIsFloat(v.k) {
+		return nil, false
+	}
+	bits, ok := c.fr.i.w.concretizeLimit(v.t, 12, true)
+	if !ok {
+		return nil, false
+	}
+	return constToValue(v.k, bits), true
+}
+
 func (c *fmtCtx) sentinel(s symstr) string {
 	c.sents = append(c.sents, s)
 	return fmt.Sprintf("\x00S%d\x00", len(c.sents)-1)
@@ -264,6 +278,9 @@ func (c *fmtCtx) render(t types.Type, v value, verb rune, top bool) string {
 							return c.sentinel(r)
 						case opaqueStr:
 							c.opaque = true
+							if !r.nonEmpty {
+								return "‹opaque?›"
+							}
 							return "‹opaque›"
 						}
 					}
@@ -282,8 +299,14 @@ func (c *fmtCtx) render(t types.Type, v value, verb rune, top bool) string {
 		return c.sentinel(v)
 	case opaqueStr:
 		c.opaque = true
+		if !v.nonEmpty {
+			return "‹opaque?›"
+		}
 		return "‹opaque›"
 	case sym:
+		if cv, ok := c.trySmall(v); ok {
+			return fmt.Sprintf("%v", cv)
+		}
 		c.opaque = true
 		return "‹sym›"
 	case int, int8, int16, int32, int64, uint, uint8, uint16, uint32, uint64, uintptr, float32, float64, complex64, complex128:
@@ -422,8 +445,14 @@ func (c *fmtCtx) hostArg(a value) interface{} {
 		return c.sentinel(v)
 	case opaqueStr:
 		c.opaque = true
+		if !v.nonEmpty {
+			return "‹opaque?›"
+		}
 		return "‹opaque›"
 	case sym:
+		if cv, ok := c.trySmall(v); ok {
+			return cv
+		}
 		c.opaque = true
 		return "‹sym›"
 	case *value:
@@ -434,7 +463,10 @@ func (c *fmtCtx) hostArg(a value) interface{} {
 
 func (c *fmtCtx) finish(out string) value {
 	if c.opaque {
-		return opaqueStr{"formatted symbolic value"}
+		// placeholders of symbolic numbers stand for at least one character; those of
+		// possibly empty opaque text do not count
+		rest := strings.ReplaceAll(out, "‹opaque?›", "")
+		return opaqueStr{why: "formatted symbolic value", nonEmpty: len(rest) > 0}
 	}
 	if len(c.sents) == 0 {
 		return out
@@ -709,6 +741,9 @@ func ext۰time۰Now(fr *frame, args []value) value {
 func ext۰time۰Time۰Unix(fr *frame, args []value) value { return int64(1700000000) }
 
 func ext۰time۰ParseDuration(fr *frame, args []value) value {
+	if o, isOpaque := args[0].(opaqueStr); isOpaque {
+		opaqueAbort(o)
+	}
 	s, ok := args[0].(string)
 	if !ok {
 		// contract stub: arbitrary (duration, nil) or (0, error)
@@ -727,7 +762,7 @@ func ext۰time۰ParseDuration(fr *frame, args []value) value {
 func ext۰time۰Duration۰String(fr *frame, args []value) value {
 	if _, ok := args[0].(sym); ok {
 		fr.i.w.stub("time.Duration.String on a symbolic duration: opaque text")
-		return opaqueStr{"time.Duration.String of a symbolic duration"}
+		return opaqueStr{why: "time.Duration.String of a symbolic duration", nonEmpty: true}
 	}
 	return time.Duration(args[0].(int64)).String()
 }
@@ -744,6 +779,9 @@ func regexpValue(re *regexp.Regexp) value {
 }
 
 func ext۰regexp۰Compile(fr *frame, args []value) value {
+	if o, isOpaque := args[0].(opaqueStr); isOpaque {
+		opaqueAbort(o)
+	}
 	s, ok := args[0].(string)
 	if !ok {
 		w := fr.i.w
@@ -871,6 +909,9 @@ func runBody(fr *frame, args []value) value {
 }
 
 func ext۰strconv۰ParseFloat(fr *frame, args []value) value {
+	if o, isOpaque := args[0].(opaqueStr); isOpaque {
+		opaqueAbort(o)
+	}
 	s, ok := args[0].(string)
 	bits := int(asInt64(fr.i.w.concrete(args[1])))
 	if !ok {
@@ -935,7 +976,7 @@ func ext۰strconv۰Atoi(fr *frame, args []value) value {
 func ext۰strconv۰Itoa(fr *frame, args []value) value {
 	if _, ok := args[0].(sym); ok {
 		fr.i.w.stub("strconv.Itoa on a symbolic int: opaque text")
-		return opaqueStr{"strconv.Itoa of a symbolic number"}
+		return opaqueStr{why: "strconv.Itoa of a symbolic number", nonEmpty: true}
 	}
 	return strconv.Itoa(args[0].(int))
 }
@@ -947,7 +988,7 @@ func ext۰strconv۰Quote(fr *frame, args []value) value {
 func ext۰strconv۰FormatInt(fr *frame, args []value) value {
 	if !allConcrete(args...) {
 		fr.i.w.stub("strconv.FormatInt on a symbolic int: opaque text")
-		return opaqueStr{"strconv.FormatInt of a symbolic number"}
+		return opaqueStr{why: "strconv.FormatInt of a symbolic number", nonEmpty: true}
 	}
 	return strconv.FormatInt(args[0].(int64), int(asInt64(args[1])))
 }
@@ -955,7 +996,7 @@ func ext۰strconv۰FormatInt(fr *frame, args []value) value {
 func ext۰strconv۰FormatUint(fr *frame, args []value) value {
 	if !allConcrete(args...) {
 		fr.i.w.stub("strconv.FormatUint on a symbolic int: opaque text")
-		return opaqueStr{"strconv.FormatUint of a symbolic number"}
+		return opaqueStr{why: "strconv.FormatUint of a symbolic number", nonEmpty: true}
 	}
 	return strconv.FormatUint(args[0].(uint64), int(asInt64(args[1])))
 }
@@ -963,7 +1004,7 @@ func ext۰strconv۰FormatUint(fr *frame, args []value) value {
 func ext۰strconv۰FormatFloat(fr *frame, args []value) value {
 	if !allConcrete(args...) {
 		fr.i.w.stub("strconv.FormatFloat on a symbolic float: opaque text")
-		return opaqueStr{"strconv.FormatFloat of a symbolic number"}
+		return opaqueStr{why: "strconv.FormatFloat of a symbolic number", nonEmpty: true}
 	}
 	return strconv.FormatFloat(args[0].(float64), args[1].(byte), int(asInt64(args[2])), int(asInt64(args[3])))
 }
